@@ -1102,6 +1102,8 @@ class Interp:
             if name in o.init:
                 return o.init[name]
         elif name in o.fields:
+            if self.E.monitors and fr is not None and not fr.spec:
+                self.E.on_field_read(self, ref, name, fr)
             return o.fields[name]
         # lazily initialise from the class declaration
         ty = self.E.field_type(o.cls, name)
